@@ -250,6 +250,8 @@ def getitem(eng, st, v, k) -> list:
             s.assume(n >= 0)
             idx = z3.If(i.t < 0, i.t + n, i.t)
             if eng.pure:
+                if not z3.is_int_value(z3.simplify(i.t)) and s.must_qf(i.t >= 0):
+                    idx = i.t  # a guard of the clause makes the index non-negative: keep the term trigger-friendly
                 out.append((s, wrap_elem(eng, s, z3.Select(s.cseq(v.t), idx), v.ty.v)))
                 continue
             for s2, side in eng.branch(s, z3.And(idx >= 0, idx < n)):
@@ -421,7 +423,8 @@ def list_extend(eng, st, lst, other):
         seq = sym.fresh_const("ext", sym.SeqArrS)
         i = sym.fresh_int("i")
         st.assume(z3.ForAll([i], z3.Implies(z3.And(i >= 0, i < la), z3.Select(seq, i) == z3.Select(st.cseq(lst.t), i))))
-        st.assume(z3.ForAll([i], z3.Implies(z3.And(i >= 0, i < lb), z3.Select(seq, i + la) == z3.Select(st.cseq(other.t), i))))
+        # (stated with the plain index on the extended list, so that reads of the new list trigger it)
+        st.assume(z3.ForAll([i], z3.Implies(z3.And(i >= la, i < la + lb), z3.Select(seq, i) == z3.Select(st.cseq(other.t), i - la))))
         st.set_seq(lst.t, seq)
         st.set_len(lst.t, la + lb)
         return [(st, NONEV)]
@@ -430,6 +433,30 @@ def list_extend(eng, st, lst, other):
             list_append(eng, st, lst, it)
         return [(st, NONEV)]
     raise Unsupported("list.extend with non-list")
+
+
+def list_repeat(eng, st, lst, k):
+    """lst * k: a new list, max(k, 0) repetitions of lst (element j is lst[j mod len(lst)])"""
+    n = st.clen(lst.t)
+    st.assume(n >= 0)
+    r = st.alloc()
+    reps = z3.If(k.t > 0, k.t, z3.IntVal(0))
+    seq = sym.fresh_const("rep", sym.SeqArrS)
+    i = sym.fresh_int("i")
+    nc = z3.simplify(n)
+    if z3.is_int_value(nc) and nc.as_long() == 1:
+        st.assume(z3.ForAll([i], z3.Implies(z3.And(i >= 0, i < reps), z3.Select(seq, i) == z3.Select(st.cseq(lst.t), 0))))
+        total = reps
+    elif z3.is_int_value(nc) and nc.as_long() == 0:
+        total = z3.IntVal(0)
+    else:
+        q = sym.fresh_int("q")
+        total = sym.fresh_int("replen")
+        st.assume(total == n * reps)
+        st.assume(z3.ForAll([i, q], z3.Implies(z3.And(i >= 0, i < n, q >= 0, q < reps), z3.Select(seq, q * n + i) == z3.Select(st.cseq(lst.t), i))))
+    st.heap.c_seq = z3.Store(st.heap.c_seq, r, seq)
+    st.heap.c_len = z3.Store(st.heap.c_len, r, total)
+    return SRef(r, lst.ty)
 
 
 def list_append(eng, st, lst, v):
@@ -677,6 +704,8 @@ def b_int(eng, st, args, kw):
                 return [(eng.raise_(st, "ValueError", "int() of a non-number"), None)]
         to_str(eng, st, SInt(z3.Int("is!seed")))  # make sure the inverse-pair axiom is on the path
         r = STR_INT(v.t)
+        if eng.pure:
+            return [(st, SInt(r))]  # in specifications int(s) is the total abstract function (meaningful where str(int(s)) == s)
         out = []
         for s, side in eng.branch(st, INT_STR(r) == v.t):
             if side:
@@ -803,6 +832,8 @@ def snapshot_list(eng, st, src, ty=None) -> SRef:
         st.heap.c_seq = z3.Store(st.heap.c_seq, r, seq)
         st.heap.c_len = z3.Store(st.heap.c_len, r, n)
         out = SRef(r, TList(ety))
+        if kind == "items":
+            out.distinct_heads = True  # the keys of one dict: pairwise different first components
         if kind == "keys":
             out.snap_of_keys = dom  # the key set this list enumerates (used by sort_list to state max/min facts directly)
         return out
@@ -917,6 +948,50 @@ def b_range(eng, st, args, kw):
     raise Unsupported("range with step")
 
 
+YLEN = z3.Function("yield_len", Val, sym.IntS)
+YELEM = z3.Function("yield_elem", Val, sym.IntS, Val)
+
+
+def ghost_iterator(eng, st, v):
+    """an iterator of unknown provenance (what an unknown callable returned): it ranges over a ghost list of unknown, finite
+    length and unconstrained elements; its position lives on the heap.  Encoding assumption (listed in the evidence): such a value
+    IS an iterator (generator), it is finite, and consuming it has no effect on the state the contracts talk about."""
+    from .engine import SIter
+    key = "giter:" + z3.simplify(v.val()).sexpr()
+    it = st.ghost.get(key)
+    if it is None:
+        r = st.alloc()
+        st.assume(st.clen(r) >= 0)
+        # the sequence is a function of the iterator value (so that every state - also the pre-state a `raises` clause is read in -
+        # speaks about the same sequence)
+        i_ = sym.fresh_int("yi")
+        st.assume(st.clen(r) == YLEN(v.val()))
+        st.assume(z3.ForAll([i_], z3.Select(st.cseq(r), i_) == YELEM(v.val(), i_)))
+        p = st.alloc()
+        st.write_field(p, "__it_pos", Val.int(z3.IntVal(0)))
+        it = SIter("list", ref=p, lst=SRef(r, TList(ANY)))
+        st.ghost[key] = it
+        eng.externals_used.add("iterator returned by an unknown callable (ghost list model)")
+    return it
+
+
+def spec_yielded(eng, node, st, fi):
+    """yielded(x): the sequence of values the unknown iterator x ranges over (ghost list)"""
+    (s, v), = eng.ev(node.args[0], st, fi)
+    return [(s, ghost_iterator(eng, s, v).lst)]
+
+
+def spec_consumed(eng, node, st, fi):
+    """consumed(it): how many elements have been pulled from iterator it (a list iterator or an unknown iterator)"""
+    from .engine import SIter
+    (s, v), = eng.ev(node.args[0], st, fi)
+    if isinstance(v, (SOpaque, SAny)):
+        v = ghost_iterator(eng, s, v)
+    if not isinstance(v, SIter) or v.kind != "list":
+        raise Unsupported("consumed() of a non-iterator")
+    return [(s, SInt(Val.ival(s.read_field(v.ref, "__it_pos"))))]
+
+
 @_b("iter")
 def b_iter(eng, st, args, kw):
     from .engine import SIter
@@ -939,6 +1014,8 @@ def b_next(eng, st, args, kw):
     it = args[0]
     if isinstance(it, SGen):
         raise Unsupported("next() directly on generator value")
+    if isinstance(it, (SOpaque, SAny)):
+        it = ghost_iterator(eng, st, it)
     if not isinstance(it, SIter) or it.kind != "list":
         raise Unsupported("next() of non-iterator")
     pos = Val.ival(st.read_field(it.ref, "__it_pos"))
@@ -983,6 +1060,10 @@ def sort_list(eng, st, lst, fresh=True):
     # every element of the old list is bounded by the last / first element of the sorted one
     st.assume(sym.forall_pat([i], z3.Implies(z3.And(i >= 0, i < n), z3.And(le(z3.Select(old, i), z3.Select(new, n - 1)), le(z3.Select(new, 0), z3.Select(old, i)))),
                              z3.Select(old, i)))
+    if getattr(lst, "distinct_heads", False):
+        # a permutation of entries with pairwise different first components has pairwise different first components (follows from
+        # the permutation axioms above and the items() axioms; stated explicitly to spare the solver the two-step instantiation)
+        st.assume(z3.ForAll([i, j], z3.Implies(z3.And(i >= 0, i < j, j < n), VL.hd(Val.targs(z3.Select(new, i))) != VL.hd(Val.targs(z3.Select(new, j))))))
     dom = getattr(lst, "snap_of_keys", None)
     if dom is not None:
         # the sorted enumeration of a key set: its last (first) element is a member that bounds every member from above (below)
@@ -1027,12 +1108,13 @@ def val_le(eng, ety, st=None):
         return lambda a, b: Val.ival(a) <= Val.ival(b)
     if ety.kind == "tuple" and ety.items and ety.items[0].kind in ("str", "int"):
         # lexicographic on the first component, ties arbitrary among later components (sound weakening for distinct keys)
-        f = val_le(eng, ety.items[0])
-        lt = (lambda a, b: Val.sval(a) < Val.sval(b)) if ety.items[0].kind == "str" else (lambda a, b: Val.ival(a) < Val.ival(b))
-        rest = TTuple(ety.items[1:]) if len(ety.items) > 1 else None
+        # (a sorted list of such tuples is therefore known to be ordered by its first components - in the same abstract string order
+        # as everywhere else - and nothing is claimed about the order of entries whose first components are equal)
+        f = val_le(eng, ety.items[0], st)
+
         def le(a, b):
             ha, hb = VL.hd(Val.targs(a)), VL.hd(Val.targs(b))
-            return z3.Or(lt(ha, hb), ha == hb)
+            return f(ha, hb)
         return le
     raise Unsupported(f"ordering of {ety}")
 
@@ -1694,6 +1776,28 @@ def unpack_assign(eng, target, v, st, fi) -> list[State]:
     raise Unsupported(f"unpack of {type(v).__name__}")
 
 
+class _StarList(list):
+    """f(*lst) with a list of symbolic length: carries a snapshot of the list (taken at the call)"""
+
+    def __init__(self, ref):
+        super().__init__()
+        self.ref = ref
+
+
+class _StarDict(dict):
+    def __init__(self, ref):
+        super().__init__()
+        self.ref = ref
+
+
+def dict_copy(eng, st, d):
+    r = st.new_container(d.ty)
+    st.heap.c_dom = z3.Store(st.heap.c_dom, r.t, st.dom(d.t))
+    st.heap.c_map = z3.Store(st.heap.c_map, r.t, st.cmap(d.t))
+    st.heap.c_len = z3.Store(st.heap.c_len, r.t, st.clen(d.t))
+    return r
+
+
 def expand_star(eng, st, fi, star, dstar, args, kwargs):
     out = []
     results = [(st, list(args), dict(kwargs))]
@@ -1705,6 +1809,8 @@ def expand_star(eng, st, fi, star, dstar, args, kwargs):
                     nxt.append((s2, a, k))
                 elif isinstance(v, STuple):
                     nxt.append((s2, a + v.items, k))
+                elif isinstance(v, SRef) and v.ty.kind == "list" and not a:
+                    nxt.append((s2, _StarList(snapshot_list(eng, s2, v)), k))  # only an opaque callee accepts this (engine.call)
                 else:
                     raise Unsupported("*args with symbolic length")
         results = nxt
@@ -1719,6 +1825,9 @@ def expand_star(eng, st, fi, star, dstar, args, kwargs):
                     nxt.append((s2, a, k))
                     continue
                 marker = getattr(v, "kw_items", None)
+                if marker is None and isinstance(v, SRef) and v.ty.kind == "dict" and not k:
+                    nxt.append((s2, a, _StarDict(dict_copy(eng, s2, v))))
+                    continue
                 if marker is None:
                     raise Unsupported("**kwargs with symbolic keys")
                 k2 = dict(k)
@@ -1806,8 +1915,23 @@ def spec_old(eng, node, st, fi):
 
 def spec_implies(eng, node, st, fi):
     (s, a), = eng.ev(node.args[0], st, fi)
-    (s, b), = eng.ev(node.args[1], s, fi)
-    return [(s, SBool(z3.Implies(eng.truth(s, a), eng.truth(s, b))))]
+    at = eng.truth(s, a)
+    # the consequent is read under the antecedent (only used to simplify its terms, e.g. list indices known to be non-negative);
+    # the antecedent itself does not stay on the path
+    s.pc.append(at)
+    mark = len(s.pc) - 1
+    try:
+        (s, b), = eng.ev(node.args[1], s, fi)
+        bt = eng.truth(s, b)
+    finally:
+        if mark < len(s.pc) and s.pc[mark] is at:
+            del s.pc[mark]
+        else:
+            for ix in range(len(s.pc) - 1, -1, -1):
+                if s.pc[ix] is at:
+                    del s.pc[ix]
+                    break
+    return [(s, SBool(z3.Implies(at, bt)))]
 
 
 def spec_iff(eng, node, st, fi):
@@ -2022,6 +2146,8 @@ SPEC_FUNCS = {
     "ev": spec_ev,
     "locked": spec_locked,
     "fresh": spec_fresh,
+    "yielded": spec_yielded,
+    "consumed": spec_consumed,
     "same": spec_same,
     "typed": spec_typed,
     "is_type": spec_is_type,
